@@ -176,6 +176,11 @@ func (g *Gen) Subject(depth int) *Schema {
 			s = &Schema{Types: []string{"null"}}
 		}
 	case 8:
+		// several referrers of one definition: reuse an existing definition now and then
+		if len(g.defs) > 0 && r.Chance(0.35) {
+			d := g.defs[r.IntN(len(g.defs))]
+			return &Schema{Ref: "#/$defs/" + d.Name, Target: d.S}
+		}
 		return g.RefTo(g.defSubject(depth))
 	case 9:
 		s = g.Compose(depth)
